@@ -257,6 +257,7 @@ contract("stochastic.Stochastic.generate.finalize_mol",
                         locals={"terminal_bond": NRef("BondDescriptor")}, stable=["my_mol", "terminal_bond"],
                         decreases="len(my_mol.bond_descriptors)")})
 
+ufunc("wellposed_s", [Ref("Stochastic")], BOOL)
 # every end group is a leaf: exactly one descriptor (C06's well-posedness; without it capping need not terminate)
 specfn('''
 def end_groups_are_leaves(s):
@@ -359,8 +360,10 @@ _ALL_GHOSTS = ["ghost.units", "ghost.mass_after", "ghost.open_after", "ghost.bon
 contract("stochastic.Stochastic.generate",
          props=["C06", "C07", "C09", "C15"],
          params=dict(self=Ref("Stochastic"), prefix=NRef("MolGen"), rng=GENERATOR), defaults={"prefix": None, "rng": None}, returns=Ref("MolGen"),
-         requires=["implies(not is_none(prefix), molgen_wf(prefix))", "end_groups_are_leaves(self)"],
-         assumes=["notation_owned(self)", "implies(not is_none(self.distribution), dist_inv(self.distribution))"],
+         requires=["implies(not is_none(prefix), molgen_wf(prefix))", "wellposed_s(self)"],
+         # wellposed_s(o): "every end group of o is a leaf", as a state-independent predicate of the object (the notation is never written during
+         # generation: frame obligations); its meaning is unfolded here, where it is used
+         assumes=["notation_owned(self)", "implies(not is_none(self.distribution), dist_inv(self.distribution))", "wellposed_s(self) == end_groups_are_leaves(self)"],
          ensures=list(_SG), labels={**_SG, "notation_owned(self)": "inv-notation-owned", "implies(not is_none(self.distribution), dist_inv(self.distribution))": "inv-distribution-object"},
          raises_may={"RuntimeError": "True", "ValueError": "True", "IndexError": "True", "TypeError": "True", "NotImplementedError": "True", "Exception": "True"},
          clause_props={"refuses-what-is-not-generable": ["C15"], "a-non-empty-left-terminal-needs-a-prefix": ["C15", "C06"], "prefix-open-descriptor-equals-the-left-terminal": ["C15", "C06"],
